@@ -28,6 +28,13 @@ def run(ctx):
         ctx.violation({"tlc_counterexample": mc.counterexample()[-1:]}, "TLC refutes IndexInRange on the chunking loop")
     if not pinned.invariant_violated:
         raise core.Machinery("the pinned chunking loop is not refuted")
+    # the splitting of unparsed chunks and the choice among candidate splits (SearchSplit.tla): its laws
+    ss = ctx.tlc("P_SearchSplit", "SPECIFICATION Spec\nCONSTANTS\n  MaxN = %d\n  MaxPieces = %d\nINVARIANT Lossless\nINVARIANT CandidateCount\nINVARIANT GroupSizes\n"
+                 "INVARIANT BestExists\nINVARIANT BestUnbeaten\nINVARIANT FullyParsedWins\nINVARIANT EmptyCandidateWins\nCHECK_DEADLOCK FALSE\n" % ((40, 2) if ctx.quick() else (200, 3)),
+                 timeout=3000, name="P_SearchSplit")
+    ss.require_clean()
+    for inv in ss.invariant_violated:
+        ctx.violation({"tlc_counterexample": ss.counterexample()[-1:]}, "TLC refuted law %s of SearchSplit.tla" % inv)
     W = core.run_cases(ctx, "harness.props.c13", "export_words", [{}], nproc=1)[0]
     order = W["order"]
     cases = core.replay_cases(ctx)
@@ -141,7 +148,7 @@ def run(ctx):
                 body = (mark + rng.choice([" ", " ", ""])).join(items)
                 t = rng.choice(["", rng.choice(FILLER) + ": ", rng.choice(FILLER) + " "]) + body + rng.choice(["", ".", " " + rng.choice(FILLER), mark])
                 cases.append({"text": t[:300], "languages": rng.choice([[L], [L], None]), "settings": rng.choice([None, {"RELATIVE_BASE": [2020, 1, 1, 0, 0, 0, 0]}]),
-                              "withlang": rng.random() < 0.5})
+                              "withlang": rng.random() < 0.5, "enum": True})
         for _ in range(1500 if ctx.quick() else 20000):      # autodetection and multi-language lists
             L = rng.choice(order)
             langs = None if rng.random() < 0.6 else rng.sample(order, rng.randint(2, 3))
@@ -149,7 +156,7 @@ def run(ctx):
         for _ in range(300 if ctx.quick() else 5000):       # arbitrary strings
             cases.append({"text": gen_string(rng, 300), "languages": rng.choice([None, ["en"], [rng.choice(order)]]), "settings": None, "withlang": False})
     for i, c in enumerate(cases):       # the chunking loop is probed for the single-language calls of every third case
-        if c.get("languages") and len(c["languages"]) == 1 and i % 3 == 0 and len(c["text"]) <= 120:
+        if c.get("languages") and len(c["languages"]) == 1 and ((i % 3 == 0 and len(c["text"]) <= 120) or c.get("enum")):
             c["chunks"] = True
     results = core.run_cases(ctx, "harness.lib", "call_search", cases, chunk=100)
     # ---- refinement of the chunking loop (SearchChunks.tla): TLC computes the chunks, rendered and compared here
@@ -176,6 +183,20 @@ def run(ctx):
                 chunk_drift += 1
                 if chunk_drift <= 5:
                     ctx.note_drift("SearchChunks", {"text": cases[i]["text"], "languages": cases[i]["languages"], "model_chunks": exp, "code_chunks": pc["original"]})
+    # ---- refinement of the splitting of unparsed chunks (SearchSplit.tla)
+    srecs, sidx = [], []
+    for i, (c, r) in enumerate(zip(cases, results)):
+        for sp_ in r.get("splits") or []:
+            srecs.append(dict(sp_, tid=len(srecs)))
+            sidx.append(i)
+    split_drift = 0
+    if srecs:
+        st_, _g = core.validate_traces(ctx, "T_Splits", "SPECIFICATION TSpec\nPOSTCONDITION Consumed\nCHECK_DEADLOCK FALSE\n", srecs)
+        for t in st_["REJECT"]:
+            split_drift += 1
+            if split_drift <= 5:
+                ctx.note_drift("SearchSplit", {"text": cases[sidx[t[1]]]["text"], "languages": cases[sidx[t[1]]]["languages"], "clause": t[3], "model": t[4],
+                                               "observed": {k: v for k, v in srecs[t[1]].items() if k != "tid"}})
     records = []
     for i, (c, r) in enumerate(zip(cases, results)):
         records.append({"tid": i, "exc": r["exc"], "isnone": r["isnone"], "islist": r["islist"], "withlang": bool(c["withlang"]),
@@ -198,6 +219,8 @@ def run(ctx):
     ctx.notes.append({"reject_classes": {"|".join(map(str, k)): v for k, v in seen.items()}})
     cov = {
         "chunking_calls_validated": len(crecs), "chunking_drift": chunk_drift,
+        "split_events_validated": {"split_by": sum(1 for x in srecs if x["kind"] == "splitby"), "choose_best_split": sum(1 for x in srecs if x["kind"] == "best"),
+                                   "with_more_than_three_pieces": sum(1 for x in srecs if x["kind"] == "splitby" and x["n"] > 3)}, "split_drift": split_drift,
         "language_choices_validated": sum(len(r.get("detect", [])) for r in results),
         "evaluations": len(cases), "distinct_nontrivial": len({(c["text"], repr(c["languages"])) for c, r in zip(cases, results) if r["hits"]}),
         "rule": "case = (text <= 300 chars, languages or autodetection, RELATIVE_BASE, add_detected_language); non-trivial = distinct call returning hits",
